@@ -177,9 +177,13 @@ func runC18(c *core.Ctx) {
 					if st.Static != nil && st.Static != travOf[put] && len(st.A) == 3 && paramOf(st.A[0], put, 0) && paramOf(st.A[1], put, 1) && paramOf(st.A[2], put, 2) {
 						mkFn = st.Static
 					}
-					// a height function of the list: (list) -> int
-					if st.Static != nil && st.Static != travOf[put] && len(st.A) == 1 && paramOf(st.A[0], put, 0) && st.Static.Signature.Results().Len() == 1 && isBasicKind(st.Static.Signature.Results().At(0).Type(), types.Int) {
-						mkFn = st.Static
+					// a height function: its (integer) result becomes the length of a new node's finger slice
+					if st.Static != nil && st.Static != travOf[put] && st.Static.Signature.Results().Len() == 1 && isBasicKind(st.Static.Signature.Results().At(0).Type(), types.Int) {
+						for _, s2 := range p.Events(ir.KStore) {
+							if s2.A[0].Op == "faddr" && s2.A[0].Aux == fFingers && s2.A[1].Op == "mkslice" && len(s2.A[1].Args) > 0 && ir.Same(s2.A[1].Args[0], st.R) {
+								mkFn = st.Static
+							}
+						}
 					}
 				}
 			}
@@ -224,7 +228,7 @@ func runC18(c *core.Ctx) {
 				for _, st := range p.Events(ir.KStore) {
 					if st.A[0].Op == "faddr" && st.A[0].Aux == fFingers && st.A[0].Args[0].Op == "alloc" && st.A[1].Op == "mkslice" && len(st.A[1].Args) > 0 {
 						for _, hs := range p.Events(ir.KCall) {
-							if hs.Static != nil && hs.Static != travOf[put] && ir.Same(hs.R, st.A[1].Args[0]) && len(hs.A) >= 1 && paramOf(hs.A[0], put, 0) {
+							if hs.Static != nil && hs.Static != travOf[put] && ir.Same(hs.R, st.A[1].Args[0]) {
 								node, rank, rankIsHeight = st.A[0].Args[0], st.A[1].Args[0], true
 								mk = hs
 							}
@@ -449,8 +453,9 @@ func mkNodeRankIsHeight(c *core.Ctx, mk *ssa.Function) bool {
 // invariant (levels is a length, hence non-negative). A taller node makes Put index the path out of range.
 func mkNodeHeightBound(c *core.Ctx, ctor, mk *ssa.Function) {
 	name := "skiplist." + mk.Name()
-	// the int field that holds the length the constructor gives to the path / head fingers
-	lvField := ""
+	// the integer field(s) that hold the length the constructor gives to the path / head fingers - wherever the
+	// constructor keeps it (a field of the list, or of a nested parameter struct)
+	lvFields := map[string]bool{}
 	{
 		an := c.Analyze(ctor)
 		for _, p := range an.AllPaths() {
@@ -460,22 +465,52 @@ func mkNodeHeightBound(c *core.Ctx, ctor, mk *ssa.Function) {
 					pathLen = st.A[1].Args[0]
 				}
 			}
-			for _, st := range p.Events(ir.KStore) {
-				if st.A[0].Op == "faddr" && intFields[st.A[0].Aux] && pathLen != nil && ir.Same(st.A[1], pathLen) {
-					lvField = st.A[0].Aux
+			if pathLen == nil {
+				continue
+			}
+			var scan func(v *ir.Term)
+			scan = func(v *ir.Term) {
+				if v == nil || v.Op != "lit" {
+					return
 				}
+				for _, kv := range ir.LitFields(v) {
+					if ir.Same(kv.Args[0], pathLen) {
+						lvFields[kv.Aux] = true
+					}
+					scan(kv.Args[0])
+				}
+			}
+			for _, st := range p.Events(ir.KStore) {
+				if st.A[0].Op == "faddr" && ir.Same(st.A[1], pathLen) {
+					lvFields[st.A[0].Aux] = true
+				}
+				scan(st.A[1])
 			}
 		}
 	}
-	if lvField == "" {
+	if len(lvFields) == 0 {
 		c.Undecided("level-loops", name, mk.Pos(), "cannot find the field that records the number of levels (the length of the insertion path) in the constructor")
 		return
+	}
+	isLevels := func(t *ir.Term) bool {
+		if t == nil {
+			return false
+		}
+		if t.Op == "load" && len(t.Args) == 1 && t.Args[0].Op == "faddr" && lvFields[t.Args[0].Aux] {
+			return true
+		}
+		return t.Op == "field" && lvFields[t.Aux]
+	}
+	lvField := ""
+	for f := range lvFields {
+		if lvField == "" || f < lvField {
+			lvField = f
+		}
 	}
 	an := c.Analyze(mk)
 	if problems(c, "level-loops", name, an) {
 		return
 	}
-	levels := &ir.Term{Op: "load", Aux: "0", Args: []*ir.Term{{Op: "faddr", Aux: lvField, Args: []*ir.Term{{Op: "param", Aux: mk.Params[0].Name()}}}}}
 	ok, why := true, ""
 	bounded := map[string]bool{} // keys of terms known to be <= levels
 	for _, h := range an.Headers {
@@ -504,7 +539,7 @@ func mkNodeHeightBound(c *core.Ctx, ctor, mk *ssa.Function) {
 					}
 					d, isD := plusConst(v, sym)
 					switch {
-					case isD && d == 1 && polarity(p, &ir.Term{Op: "bin", Aux: "<", Args: []*ir.Term{sym, levels}}) > 0:
+					case isD && d == 1 && guardedByLevels(p, sym, isLevels):
 					default:
 						inductive = false
 					}
@@ -530,6 +565,17 @@ func mkNodeHeightBound(c *core.Ctx, ctor, mk *ssa.Function) {
 		}
 	}
 	c.Check(ok && n > 0, "level-loops", name, mk.Pos(), "node height <= list."+lvField+" = len(path) = len(head.fingers)", "%s", why)
+}
+
+// guardedByLevels: path p carries the fact counter < <levels field>.
+func guardedByLevels(p *ir.Path, sym *ir.Term, isLevels func(*ir.Term) bool) bool {
+	for _, b := range p.Events(ir.KBranch) {
+		at := b.Atom
+		if at.Op == "bin" && at.Aux == "<" && len(at.Args) == 2 && b.Pol && ir.Same(at.Args[0], sym) && isLevels(at.Args[1]) {
+			return true
+		}
+	}
+	return false
 }
 
 // field roles of the skip list, derived from types (never from names)
